@@ -11,5 +11,7 @@ def check(ctx):
     typestate.no_self_dependence(ctx, 'C14-T4')
     typestate.own_column_only(ctx, 'C14-T5')
     typestate.queries_are_pure(ctx, 'C14-T6')
+    typestate.tables_have_no_truth_value(ctx, 'C14-T7')
+    typestate.no_hidden_stage_state(ctx, 'C14-T8')
     ctx.undecided += ['equality of recomputed tables with the canonical ones (rests on determinism, C09, '
                       'and on T4: a stage reads none of its own earlier output)']
